@@ -351,7 +351,16 @@ def varint(ctx):
     _expect(ctx, "R38.varint", c, ["ctl_write_varint_bad", "ctl_read_varint_bad"], ["ctl_write_varint_good", "ctl_read_varint_good"])
 
 
-ALL = {"varint": varint, "threadcount": threadcount, "sizekind": sizekind, "lenext": lenext, "xxh": xxh, "signedoff": signedoff, "reqalloc": reqalloc, "fieldfit": fieldfit, "stalefield": stalefield, "hidden": hidden, "region_args": region_args, "widen": widen, "progress": progress, "lazyinit": lazyinit, "lanes": lanes, "atomic": atomic, "feasible": feasible, "endian": endian, "units": units, "alloc": alloc, "status": status, "ownership": ownership, "cursor": cursor, "arrays": arrays,
+def scaledext(ctx):
+    from .rules import scaledext as se
+    P = program()
+    c = _sub()
+    n = se.check(c, [P.fn("scaledext_bad"), P.fn("scaledext_good")])
+    ctx.control("R39.scaled-extent finds the control reads", n == 2, str(n))
+    _expect(ctx, "R39.scaled-extent", c, ["scaledext_bad"], ["scaledext_good"])
+
+
+ALL = {"scaledext": scaledext, "varint": varint, "threadcount": threadcount, "sizekind": sizekind, "lenext": lenext, "xxh": xxh, "signedoff": signedoff, "reqalloc": reqalloc, "fieldfit": fieldfit, "stalefield": stalefield, "hidden": hidden, "region_args": region_args, "widen": widen, "progress": progress, "lazyinit": lazyinit, "lanes": lanes, "atomic": atomic, "feasible": feasible, "endian": endian, "units": units, "alloc": alloc, "status": status, "ownership": ownership, "cursor": cursor, "arrays": arrays,
        "recursion": recursion, "narrowing": narrowing, "skeleton": skeleton, "must_pass": must_pass}
 
 
